@@ -21,7 +21,12 @@ typedef struct relax_t { int id; } relax_t;
 typedef struct solver_t { int id; } solver_t;
 typedef struct level { vec f, u, t; mat A, P, R; solver_t *solve; relax_t *relax; int lev; } level;
 typedef level *level_iterator;
-typedef struct amg_params { unsigned npre, npost, ncycle, pre_cycles; } amg_params;
+/* std::list iterators over the array view */
+#define std_next(it) ((it) + 1)
+#define std_prev(it) ((it) - 1)
+/* all fields of amg::params that the solve phase can see (so that a body that starts to consult another parameter still
+ * translates and is then judged by the contract) */
+typedef struct amg_params { unsigned coarse_enough; _Bool direct_coarse; unsigned max_levels; unsigned npre, npost, ncycle, pre_cycles; _Bool allow_rebuild; } amg_params;
 enum { M_F = 1, M_U, M_T, M_A, M_P, M_R };
 #define TAG(k, m) ((int)(16 * ((k) + 1) + (m)))
 #define LEVEL_OF(id) (((id) >> 4) - 1)
